@@ -172,7 +172,12 @@ def _gen_step(r, nfaults, first):
         # verification-targeted: a completed AP write is silently corrupted while the options ask
         # for verify-then-delete; a real verification must refuse to delete
         st.update({"post_check": True, "delete_original": True})
-        st["fault"] = {"auto": True, "rseed": r.randrange(1 << 30), "kinds": ["corrupt"], "only": "tofile:.imec0.ap.bin"}
+        if r.random() < 0.4:
+            # ... or a chunk of a shank's compressed file, after the split was verified
+            st["compress"] = True
+            st["fault"] = {"auto": True, "rseed": r.randrange(1 << 30), "kinds": ["corrupt"], "only": "write:.imec0.ap.cbin_tmp"}
+        else:
+            st["fault"] = {"auto": True, "rseed": r.randrange(1 << 30), "kinds": ["corrupt"], "only": "tofile:.imec0.ap.bin"}
     return st
 
 
